@@ -374,6 +374,27 @@ func TestVerifC13(t *testing.T) {
 				return map[string]any{"branches": idxNames, "shard_max": shardMax, "paths(id-1)": c13Paths, "contents(id-1)": g.contents, "runs": runDesc,
 					"how": "props/C13/NOTES.md (replay): commit the listed trees per run with git fast-import, call gitindex.IndexGitRepo with IsDelta per kind"}
 			}
+			// sometimes a ".meta" sidecar WITHOUT shard waits at the next shard number (left by a run killed between removing a
+			// shard and its sidecar): it tombstones every path and carries old branch versions. The build must not let its new
+			// shard be read through it (Builder.Finish removes it first, fix b31ad3a).
+			if step > 0 && r.Chance(15) {
+				old, _ := filepath.Glob(filepath.Join(indexDir, "*.zoekt"))
+				if len(old) > 0 {
+					sort.Strings(old)
+					if repos, _, err := index.ReadMetadataPath(old[0]); err == nil && len(repos) == 1 {
+						orphan := *repos[0]
+						orphan.FileTombstones = map[string]struct{}{}
+						for _, p := range c13Paths {
+							orphan.FileTombstones[p] = struct{}{}
+						}
+						shard := filepath.Join(indexDir, fmt.Sprintf("repo_v%d.%05d.zoekt", index.IndexFormatVersion, len(old)))
+						if tmp, final, err := index.JsonMarshalRepoMetaTemp(shard, &orphan); err == nil {
+							os.Rename(tmp, final)
+							classes["orphan-sidecar"] = true
+						}
+					}
+				}
+			}
 			if _, err := IndexGitRepo(opts); err != nil {
 				vfOracleFail("index-error", "IndexGitRepo returned an error: "+err.Error(), replay())
 				failed = true
